@@ -3,7 +3,7 @@
     harness/c06_templnt_dev.py [quick|thorough] [cap_programs cap_queries]
 Evidence and replays go to $VERIF_OUT (default: a scratch directory, so /verif/evidence is never overwritten);
 VERIF_REPO / VERIF_BUILD select the tree under test as tools/mutant.sh does.  VERIF_STATS=1 prints triage histograms."""
-import os, sys, time
+import os, shutil, sys, time
 os.environ.setdefault("VERIF_OUT", "/tmp/templnt/out")
 sys.path.insert(0, os.path.dirname(os.path.dirname(os.path.abspath(__file__))))
 from vf.common import Ctx, MachineryError, EXIT_MACHINERY
@@ -30,6 +30,8 @@ def main():
         return ctx.finish()
     except MachineryError as e:
         print("MACHINERY-ERROR C06/templnt: %s" % e, file=sys.stderr)
+        if not os.environ.get("VERIF_KEEP_TMP"):
+            shutil.rmtree(ctx.tmp, ignore_errors=True)
         return EXIT_MACHINERY
 
 
